@@ -5,9 +5,13 @@
 // Specification functions that other packages' contracts use are exported (Gc*).
 package z
 
+//@ import "os"
+//@ import "encoding/binary"
+
 // ---------------------------------------------------------------- bbloom.go (C19)
 
-//@ spec GcMaskOK() bool = len(mask) == 8 && forall k int :: 0 <= k && k < 8 ==> mask[k] == uint8(1) << uint(k)
+//@ spec GcMask() []uint8 = mask
+//@ spec GcMaskOK() bool = len(mask) == 8 && gcAllocated(mask) && forall k int :: 0 <= k && k < 8 ==> mask[k] == uint8(1) << uint(k)
 //@ spec opaque GcBitS(bs []uint64, idx uint64) bool = (bs[idx>>6]>>(idx&63))&1 == 1
 //@ spec opaque GcPosV(shift, size, hash, i uint64) uint64 = ((hash >> shift) + i*(hash<<shift>>shift)) & size
 //@ spec opaque GcHasV(bs []uint64, shift, size, setLocs, hash uint64) bool = forall i uint64 :: i < setLocs ==> GcBitS(bs, GcPosV(shift, size, hash, i))
@@ -81,3 +85,111 @@ package z
 //@   ensures [C19] #wf GcWfBloom(bloomfilter)
 //@   ensures [C19] #empty forall x uint64 :: x <= bloomfilter.size ==> !GcBit(bloomfilter, x)
 //@   ensures [C19] #shape bloomfilter.size+1 == uint64(1)<<bloomfilter.sizeExp && bloomfilter.shift == 64-bloomfilter.sizeExp && bloomfilter.size >= 511
+
+// ---------------------------------------------------------------- buffer.go, file.go (C11)
+
+// Trusted operating-system layer: mapping a file gives a byte slice of the
+// requested size; growing the mapping keeps the old contents.
+//@ func OpenMmapFileUsing(fd *os.File, sz int, writable bool) (*MmapFile, error)
+//@   trusted OS: mmap of a fresh temporary file of sz bytes succeeds and is zero-filled
+//@   ensures (result1 == nil || result1 == NewFile) && result0 != nil && gcFresh(result0) && len(result0.Data) == sz && gcFresh(result0.Data) && forall i int :: 0 <= i && i < sz ==> result0.Data[i] == 0
+
+//@ func (m *MmapFile) Truncate(maxSz int64) error
+//@   trusted OS: ftruncate + mremap keep the first min(old,new) bytes, extend with zeroes
+//@   requires m != nil
+//@   modifies m.Data
+//@   ensures gcSameArray(m.Data, old(m.Data)) || gcFresh(m.Data)
+//@   ensures result == nil && len(m.Data) == int(maxSz) && forall i int :: 0 <= i && i < old(len(m.Data)) && i < int(maxSz) ==> m.Data[i] == old(m.Data[i])
+
+//@ spec GcWfBuffer(b *Buffer) bool = b != nil && len(b.buf) > 0 && len(b.buf) == b.curSz && b.padding <= b.offset && b.offset <= uint64(b.curSz) && b.maxSz >= 0 && b.autoMmapAfter >= 0 && (b.bufType == UseCalloc || (b.bufType == UseMmap && b.mmapFile != nil && gcSameRef(b.buf, b.mmapFile.Data)))
+//@ spec GcGrowPanics(b *Buffer, n int) bool = b.maxSz > 0 && int(b.offset)+n > b.maxSz
+
+//@ func (b *Buffer) Grow(n int)
+//@   requires GcWfBuffer(b) && 0 <= n && n < 1<<40 && GcBufRoom(b, 1)
+//@   panics_if [C11] #maxsize GcGrowPanics(b, n)
+//@   modifies b.buf, b.curSz, b.bufType, b.mmapFile, b.mmapFile.Data
+//@   ensures [C11] #wf GcWfBuffer(b) && b.offset == old(b.offset) && b.padding == old(b.padding) && b.maxSz == old(b.maxSz)
+//@   ensures [C11] #room int(b.offset)+n <= b.curSz
+//@   ensures [C11] #prefix forall i int :: 0 <= i && uint64(i) < b.offset ==> b.buf[i] == old(b.buf[i])
+//@   ensures [C11] #limit !(b.maxSz > 0 && int(b.offset)+n > b.maxSz)
+//@   ensures [C11] #storage (gcSameArray(b.buf, old(b.buf)) || gcFresh(b.buf)) && (b.mmapFile == old(b.mmapFile) || gcFresh(b.mmapFile)) && b.curSz <= old(b.curSz)+(1<<41) && b.maxSz == old(b.maxSz)
+//@   ensures [C11] #stable int(old(b.offset))+n < old(b.curSz) ==> gcSameArray(b.buf, old(b.buf)) && b.curSz == old(b.curSz)
+
+//@ spec GcBufRoom(b *Buffer, k int) bool = b.curSz < (1<<50)-k*(1<<41) && b.maxSz < 1<<50
+//@ spec GcBE64(b *Buffer, off int) uint64 = binary.BigEndian.Uint64(b.buf[off:])
+
+//@ func (b *Buffer) Allocate(n int) []byte
+//@   requires GcWfBuffer(b) && GcBufRoom(b, 1) && 0 <= n && n < 1<<40
+//@   panics_if [C11] #maxsize GcGrowPanics(b, n)
+//@   modifies b.buf, b.curSz, b.bufType, b.mmapFile, b.mmapFile.Data, b.offset
+//@   ensures [C11] #wf GcWfBuffer(b) && b.offset == old(b.offset)+uint64(n) && b.padding == old(b.padding) && b.maxSz == old(b.maxSz)
+//@   ensures [C11] #view gcSliceAt(result, b.buf, int(old(b.offset))) && len(result) == n
+//@   ensures [C11] #prefix forall i int :: 0 <= i && uint64(i) < old(b.offset) ==> b.buf[i] == old(b.buf[i])
+//@   ensures [C11] #storage (gcSameArray(b.buf, old(b.buf)) || gcFresh(b.buf)) && (b.mmapFile == old(b.mmapFile) || gcFresh(b.mmapFile)) && b.curSz <= old(b.curSz)+(1<<41) && b.maxSz == old(b.maxSz)
+
+//@ func (b *Buffer) AllocateOffset(n int) int
+//@   requires GcWfBuffer(b) && GcBufRoom(b, 1) && 0 <= n && n < 1<<40
+//@   panics_if [C11] #maxsize GcGrowPanics(b, n)
+//@   modifies b.buf, b.curSz, b.bufType, b.mmapFile, b.mmapFile.Data, b.offset
+//@   ensures [C11] #wf GcWfBuffer(b) && b.offset == old(b.offset)+uint64(n) && b.padding == old(b.padding) && result == int(old(b.offset))
+//@   ensures [C11] #prefix forall i int :: 0 <= i && uint64(i) < old(b.offset) ==> b.buf[i] == old(b.buf[i])
+//@   ensures [C11] #storage (gcSameArray(b.buf, old(b.buf)) || gcFresh(b.buf)) && (b.mmapFile == old(b.mmapFile) || gcFresh(b.mmapFile)) && b.curSz <= old(b.curSz)+(1<<41) && b.maxSz == old(b.maxSz)
+
+//@ func (b *Buffer) Write(p []byte) (n int, err error)
+//@   requires GcWfBuffer(b) && GcBufRoom(b, 1) && len(p) < 1<<40 && !gcSameArray(p, b.buf)
+//@   panics_if [C11] #maxsize GcGrowPanics(b, len(p))
+//@   modifies b.buf, b.buf[*], b.curSz, b.bufType, b.mmapFile, b.mmapFile.Data, b.offset
+//@   ensures [C11] #wf GcWfBuffer(b) && b.offset == old(b.offset)+uint64(len(p)) && b.padding == old(b.padding) && n == len(p) && err == nil
+//@   ensures [C11] #appended forall i int :: 0 <= i && i < len(p) ==> b.buf[int(old(b.offset))+i] == p[i]
+//@   ensures [C11] #prefix forall i int :: 0 <= i && uint64(i) < old(b.offset) ==> b.buf[i] == old(b.buf[i])
+//@   ensures [C11] #storage (gcSameArray(b.buf, old(b.buf)) || gcFresh(b.buf)) && (b.mmapFile == old(b.mmapFile) || gcFresh(b.mmapFile)) && b.curSz <= old(b.curSz)+(1<<41) && b.maxSz == old(b.maxSz)
+
+//@ func (b *Buffer) Bytes() []byte
+//@   requires GcWfBuffer(b)
+//@   ensures [C11] #view gcSliceAt(result, b.buf, int(b.padding)) && len(result) == int(b.offset-b.padding)
+
+//@ func (b *Buffer) Reset()
+//@   requires GcWfBuffer(b)
+//@   modifies b.offset
+//@   ensures [C11] GcWfBuffer(b) && b.offset == b.padding
+
+//@ func (b *Buffer) LenNoPadding() int
+//@   requires GcWfBuffer(b)
+//@   ensures [C11] result == int(b.offset-b.padding)
+
+//@ func (b *Buffer) writeLen(sz int)
+//@   requires GcWfBuffer(b) && GcBufRoom(b, 1)
+//@   panics_if [C11] #maxsize GcGrowPanics(b, 8)
+//@   modifies b.buf, b.buf[*], b.curSz, b.bufType, b.mmapFile, b.mmapFile.Data, b.offset
+//@   ensures [C11] #wf GcWfBuffer(b) && b.offset == old(b.offset)+8 && b.padding == old(b.padding) && b.maxSz == old(b.maxSz)
+//@   ensures [C11] #len GcBE64(b, int(old(b.offset))) == uint64(sz)
+//@   ensures [C11] #prefix forall i int :: 0 <= i && uint64(i) < old(b.offset) ==> b.buf[i] == old(b.buf[i])
+//@   ensures [C11] #storage (gcSameArray(b.buf, old(b.buf)) || gcFresh(b.buf)) && (b.mmapFile == old(b.mmapFile) || gcFresh(b.mmapFile)) && b.curSz <= old(b.curSz)+(1<<41) && b.maxSz == old(b.maxSz)
+
+//@ func (b *Buffer) SliceAllocate(sz int) []byte
+//@   requires GcWfBuffer(b) && GcBufRoom(b, 3) && 0 <= sz && sz < 1<<39
+//@   panics_if [C11] #maxsize GcGrowPanics(b, 8+sz)
+//@   modifies b.buf, b.buf[*], b.curSz, b.bufType, b.mmapFile, b.mmapFile.Data, b.offset
+//@   ensures [C11] #wf GcWfBuffer(b) && b.offset == old(b.offset)+8+uint64(sz) && b.padding == old(b.padding)
+//@   ensures [C11] #len GcBE64(b, int(old(b.offset))) == uint64(sz)
+//@   ensures [C11] #view gcSliceAt(result, b.buf, int(old(b.offset))+8) && len(result) == sz
+//@   ensures [C11] #prefix forall i int :: 0 <= i && uint64(i) < old(b.offset) ==> b.buf[i] == old(b.buf[i])
+//@   ensures [C11] #storage (gcSameArray(b.buf, old(b.buf)) || gcFresh(b.buf)) && (b.mmapFile == old(b.mmapFile) || gcFresh(b.mmapFile)) && b.curSz <= old(b.curSz)+3*(1<<41) && b.maxSz == old(b.maxSz)
+
+//@ func (b *Buffer) WriteSlice(slice []byte)
+//@   requires GcWfBuffer(b) && GcBufRoom(b, 3) && len(slice) < 1<<39 && !gcSameArray(slice, b.buf)
+//@   panics_if [C11] #maxsize GcGrowPanics(b, 8+len(slice))
+//@   modifies b.buf, b.buf[*], b.curSz, b.bufType, b.mmapFile, b.mmapFile.Data, b.offset
+//@   ensures [C11] #wf GcWfBuffer(b) && b.offset == old(b.offset)+8+uint64(len(slice)) && b.padding == old(b.padding)
+//@   ensures [C11] #len GcBE64(b, int(old(b.offset))) == uint64(len(slice))
+//@   ensures [C11] #payload forall i int :: 0 <= i && i < len(slice) ==> b.buf[int(old(b.offset))+8+i] == slice[i]
+//@   ensures [C11] #prefix forall i int :: 0 <= i && uint64(i) < old(b.offset) ==> b.buf[i] == old(b.buf[i])
+//@   ensures [C11] #storage (gcSameArray(b.buf, old(b.buf)) || gcFresh(b.buf)) && (b.mmapFile == old(b.mmapFile) || gcFresh(b.mmapFile)) && b.curSz <= old(b.curSz)+3*(1<<41) && b.maxSz == old(b.maxSz)
+
+// Slice(offset) reads back what SliceAllocate/WriteSlice wrote at that offset.
+//@ func (b *Buffer) Slice(offset int) ([]byte, int)
+//@   requires GcWfBuffer(b) && GcBufRoom(b, 0) && 0 <= offset
+//@   requires offset >= int(b.offset) || (offset+8 <= int(b.offset) && GcBE64(b, offset) <= uint64(int(b.offset)-offset-8))
+//@   ensures [C11] #end offset >= int(b.offset) ==> len(result0) == 0 && result1 == -1
+//@   ensures [C11] #slice offset < int(b.offset) ==> gcSliceAt(result0, b.buf, offset+8) && len(result0) == int(GcBE64(b, offset))
+//@   ensures [C11] #next offset < int(b.offset) ==> result1 == ite(offset+8+int(GcBE64(b, offset)) >= int(b.offset), -1, offset+8+int(GcBE64(b, offset)))
